@@ -41,6 +41,12 @@ CLAIMED = {
   "note": "Trusted: Lean kernel; rkh tables (prints what name_base_scale and Context::lookup return); Mathlib ring/norm_num.",
   "design_ref": "DESIGN.md §7 C10",
  },
+ "C15": {
+  "technique": "Lean 4 proof by induction over histories (replies_are_fresh, run_untouched, flag_off_never_sets) + differential correspondence of whole sessions, a fresh-context oracle and a registry digest",
+  "text": "For histories of any length: the registry and settings after the history are those before it; the reply to every query equals the reply of a fresh copy of the initial context that differs only in the previous answer, where the previous answer is threaded by nextAns (set only by a successful number reply while the feature is on; unchanged by errors, conversions, definitions, lists, durations, commands; never set with the feature off). Tied to rink_core's eval by random sessions (plain expressions, ans/ANS/_, conversions, definition lookups, units for/factorize/search, failing queries, flag toggles) compared reply by reply with the Lean session model, re-evaluated on fresh contexts with previous_result preset, and a digest of Debug(registry), clock and settings taken before and after every session.",
+  "note": "Trusted: Lean kernel; purity of eval_query rests in the code on &Context without interior mutability (observed through the digest); the clock is pinned; `ans` is stored for QueryReply::Number only, as the property's mechanism states (a time value rendered as a duration breakdown does not update it).",
+  "design_ref": "DESIGN.md §7 C15",
+ },
 }
 
 NOT_YET = {
